@@ -5,7 +5,7 @@
 //! `flattened()`, `flattened_t()`, `for_each_quadratic_bezier_with_t`, `num_quadratics`);
 //! f32 only: `pquad`, `pcubic` — the lyon_path iterator adapter (`PathIterator::flattened`) and the
 //! builder adapter (`Path::builder().flattened(tol)`, i.e. `private::flatten_*`);
-//! oracle only: `svgarc` (`SvgArc::for_each_flattened(_with_t)`).
+//! (`SvgArc::for_each_flattened(_with_t)` = `Arc::from_svg_arc` (property C13) + the `Arc` code covered here.)
 //!
 //! IMPL prints counts, every point and every t of every entry point (compared bit for bit with
 //! the Lean model). ORCL evaluates the property on lyon's own output in f64:
@@ -15,7 +15,7 @@
 //! allowance = tolerance·(1+SLACK) + ROUND·eps·magnitude.
 
 use lyon_geom::euclid::Angle;
-use lyon_geom::{point, vector, Arc, ArcFlags, CubicBezierSegment, LineSegment, Point, QuadraticBezierSegment, Segment, SvgArc};
+use lyon_geom::{point, vector, Arc, CubicBezierSegment, LineSegment, Point, QuadraticBezierSegment, Segment};
 use lyon_path::iterator::PathIterator;
 use lyon_path::{Path, PathEvent};
 use std::ops::Range;
@@ -322,9 +322,6 @@ fn check_poly<S: Fl>(orc: &mut Oracle, cx: &Ctxt, poly: &Poly<S>) {
         if d > allow {
             d = d.min(d_pt_curve(v, cx.curve, dense, allow));
         }
-        if std::env::var("VH_DEBUG").is_ok() {
-            eprintln!("{} vertex {} t={:?} d_param={:e} d_search={:e} allow={:e}", e, i + 1, tend.as_ref().map(|t| t[i]), tend.as_ref().map(|t| dist(v, cx.curve.eval(t[i]))).unwrap_or(-1.0), d_pt_curve(v, cx.curve, dense, 0.0), allow);
-        }
         orc.check(d <= allow, &cl("vertex"), "generic", || format!("{}: vertex {} of {} is {:e} from the curve, allowance {:e} (tol {:e})", e, i + 1, n, d, allow, cx.tol));
     }
     // every curve point within the allowance of the polyline
@@ -371,7 +368,10 @@ fn check_poly<S: Fl>(orc: &mut Oracle, cx: &Ctxt, poly: &Poly<S>) {
         "generic" if k == "cubic" && worst <= split_allow => "tolerance-split",
         c => c,
     };
-    orc.check(worst <= allow, &cl("tolerance"), class, || {
+    // an iterator whose last point misses the end point (known findings) leaves the curve's very
+    // end uncovered by exactly that offset: reported under `end`, not as a tolerance failure
+    let explained_by_end = end_class != "generic" && d_end > 0.0 && worst <= allow + d_end;
+    orc.check(worst <= allow || explained_by_end, &cl("tolerance"), class, || {
         format!("{}: curve point at t={} is {:e} from the polyline ({} segments), allowance {:e} (tol {:e}, ratio {:.2}) {}", e, worst_t, worst, n, allow, cx.tol, worst / cx.tol, cx.diag)
     });
     if end_class != "generic" {
@@ -1083,7 +1083,7 @@ fn witness_cases(ctx: &mut Ctx) {
 fn main() {
     let mut ctx = Ctx::from_args("C09");
     witness_cases(&mut ctx);
-    let n = ctx.n(900, 40000);
+    let n = ctx.n(2000, 60000);
     for _ in 0..n {
         quad_case::<f32>(&mut ctx);
         quad_case::<f64>(&mut ctx);
@@ -1097,5 +1097,3 @@ fn main() {
     ctx.finish();
 }
 
-#[allow(dead_code)]
-fn unused(_: ArcFlags, _: SvgArc<f32>) {}
